@@ -316,6 +316,9 @@ impl ServiceDaemon {
 
         let poller = Poll::new().map_err(|e| e_fmt!("failed to create mio Poll: {e}"))?;
 
+        #[cfg(feature = "verif-hooks")]
+        crate::verif::bind_world_for(signal_addr);
+
         let (sender, receiver) = bounded(100);
 
         // Spawn the daemon thread
@@ -750,6 +753,9 @@ impl ServiceDaemon {
         cmd_sender: Sender<Command>,
         signal_addr: SocketAddr,
     ) {
+        #[cfg(feature = "verif-hooks")]
+        let _verif_guard = crate::verif::adopt_world(signal_addr);
+
         let mut zc = Zeroconf::new(signal_sock, poller, port, cmd_sender, signal_addr);
 
         if let Some(cmd) = zc.run(receiver) {
@@ -1438,6 +1444,9 @@ impl Zeroconf {
                 let millis = if timer > now { timer - now } else { 1 };
                 Duration::from_millis(millis)
             });
+
+            #[cfg(feature = "verif-hooks")]
+            let timeout = self.verif_gate(timeout, receiver.len());
 
             // Process incoming packets, command events and optional timeout.
             events.clear();
@@ -4858,6 +4867,26 @@ fn resolve_addr_to_index(if_kind: IfKind, interfaces: &[Interface]) -> IfKind {
         }
     }
     if_kind
+}
+
+#[cfg(feature = "verif-hooks")]
+impl Zeroconf {
+    /// Per-iteration gate of the simulation layer: parks until the harness
+    /// grants an iteration, then reads the injected datagrams with the
+    /// daemon's own `handle_read`. No effect without a simulated world.
+    fn verif_gate(&mut self, timeout: Option<Duration>, pending_cmds: usize) -> Option<Duration> {
+        match crate::verif::gate_wait(timeout, pending_cmds) {
+            crate::verif::Gate::NoWorld => timeout,
+            mode => {
+                while self.handle_read(IPV4_SOCK_EVENT_KEY) {}
+                while self.handle_read(IPV6_SOCK_EVENT_KEY) {}
+                match mode {
+                    crate::verif::Gate::Step => Some(Duration::ZERO),
+                    _ => Some(Duration::from_millis(5)),
+                }
+            }
+        }
+    }
 }
 
 #[cfg(feature = "verif-hooks")]
